@@ -491,12 +491,36 @@ class TsonisFamily(ClimateFamily):
         self.queries["correlation"] = call("correlation")
         self.queries["winter_only"] = call("winter_only")
         self.mutators["set_winter_only"] = self.m_winter
+        self.mutators["data_window_then_set_winter_only"] = self.m_rewindow
 
     def init_model(self, case):
         return {"n": len(case["lat"]), "data": case["data"],
                 "lat": case["lat"], "lon": case["lon"], "thr": case["thr"],
                 "nl": bool(case["nl"]), "nwt": case["nwt"],
-                "winter": bool(case["winter"])}
+                "winter": bool(case["winter"]), "twin": None}
+
+    @staticmethod
+    def _window(m):
+        t0, t1 = m["twin"]
+        return {"time_min": float(t0), "time_max": float(t1),
+                "lat_min": float(min(m["lat"])),
+                "lat_max": float(max(m["lat"])),
+                "lon_min": float(min(m["lon"])),
+                "lon_max": float(max(m["lon"]))}
+
+    def m_rewindow(self, o, m, arg):
+        """The network's ClimateData gets another time window (same nodes)
+        and the network is regenerated from it the documented way: by
+        set_winter_only - with the value the flag already has."""
+        T = len(m["data"])
+        k = int(arg) % 3
+        m["twin"] = None if k == 2 or T < 24 else \
+            ((0, T // 2 - 1) if k == 0 else (T // 2, T - 1))
+        if m["twin"] is None:
+            o.data.set_global_window()
+        else:
+            o.data.set_window(self._window(m))
+        self.m_winter(o, m, m["winter"])
 
     def build(self, m):
         from pyunicorn.core import GeoGrid
@@ -507,6 +531,8 @@ class TsonisFamily(ClimateFamily):
                        np.array(m["lon"], dtype=float), silence_level=3)
         data = ClimateData(observable=X, grid=grid, time_cycle=12,
                            silence_level=3)
+        if m.get("twin"):
+            data.set_window(self._window(m))
         return TsonisClimateNetwork(data, threshold=m["thr"],
                                     non_local=m["nl"],
                                     node_weight_type=m["nwt"],
@@ -530,6 +556,7 @@ class DerivedClimateFamily(TsonisFamily):
         self.queries.pop("correlation", None)
         self.queries.pop("winter_only", None)
         del self.mutators["set_winter_only"]
+        self.mutators.pop("data_window_then_set_winter_only", None)
         if kind in ("Spearman", "MutualInfo"):
             self.mutators["set_winter_only"] = self.m_winter
             self.queries["winter_only"] = call("winter_only")
@@ -1070,7 +1097,8 @@ def tsonis_cases(draw):
     margs = {"set_threshold": thr,
              "set_link_density": st.integers(1, 9).map(lambda k: k / 10.0),
              "set_non_local": st.booleans(),
-             "set_winter_only": st.booleans()}
+             "set_winter_only": st.booleans(),
+             "data_window_then_set_winter_only": st.integers(0, 2)}
     return {"family": "TsonisClimateNetwork", "data": data, "lat": draw(la),
             "lon": draw(lo), "thr": draw(thr), "nl": draw(st.booleans()),
             "nwt": draw(st.sampled_from([None, "surface"])),
@@ -1287,7 +1315,8 @@ def _pair_bases():
                  "nwt": "surface", "winter": False},
                 {"set_threshold": [0.525, 0.125], "set_link_density":
                  [0.4, 0.8], "set_non_local": [True, False],
-                 "set_winter_only": [True, False]}))
+                 "set_winter_only": [True, False],
+                 "data_window_then_set_winter_only": [0, 2]}))
     for kind in ("RecurrencePlot", "RecurrenceNetwork",
                  "JointRecurrenceNetwork"):
         modes = RP_MODES if kind != "JointRecurrenceNetwork" else RP_MODES[:3]
